@@ -353,6 +353,17 @@ impl<'ast, 'res> Resolver<'ast, 'res> {
     fn check_assign_index(&mut self, target: ExprRef<'ast>, expr: ExprRef<'ast>) {
         self.check_expr(target);
         self.check_expr(expr);
+        if !Self::is_rooted_in_variable(target) {
+            let span = target.span();
+            self.emit_error(
+                span,
+                SemanticError::TypeMismatch,
+                vec![Label {
+                    span,
+                    message: ArenaCow::Borrowed("Index assignment need variable for left side"),
+                }],
+            );
+        }
         if let Some(local_id) = self.expr_root_local(target) {
             self.record_stmt_read(local_id);
             self.record_stmt_write(local_id);
@@ -411,6 +422,16 @@ impl<'ast, 'res> Resolver<'ast, 'res> {
     fn set_stmt_expr_class(&mut self, class: ExprClass) {
         if let Some(stmt) = self.current_stmt {
             self.facts.join_stmt_expr_class(stmt, class);
+        }
+    }
+
+    fn is_rooted_in_variable(mut expr: ExprRef<'ast>) -> bool {
+        loop {
+            match expr {
+                Expr::Var(..) => return true,
+                Expr::Index { array, .. } => expr = array,
+                _ => return false,
+            }
         }
     }
 
@@ -922,9 +943,20 @@ impl<'ast, 'res> Resolver<'ast, 'res> {
                     }
                 }
             }
-            Expr::Member { object, .. } => {
-                // We don't track precise receiver types, so validation is deferred to runtime
+            Expr::Member { object, field, span, .. } => {
+                // Only method calls exist; a bare `value.name` has no meaning at run time.
                 self.check_expr(object);
+                self.emit_error(
+                    *span,
+                    SemanticError::TypeMismatch,
+                    vec![Label {
+                        span: *span,
+                        message: ArenaCow::Owned(arena_format!(
+                            self.arena,
+                            "Method `{field}` need `()` to call am",
+                        )),
+                    }],
+                );
             }
             Expr::Call { callee, args, span } => {
                 // Check the callee expression
@@ -1103,7 +1135,17 @@ impl<'ast, 'res> Resolver<'ast, 'res> {
                             }
                         }
                     }
-                    _ => self.check_expr(callee),
+                    _ => {
+                        self.check_expr(callee);
+                        self.emit_error(
+                            *span,
+                            SemanticError::TypeMismatch,
+                            vec![Label {
+                                span: *span,
+                                message: ArenaCow::Borrowed("Dis expression no be function"),
+                            }],
+                        );
+                    }
                 }
 
                 // Check all arguments
